@@ -118,6 +118,7 @@ func loadRepoFens() []string {
 	exe, _ := os.Executable()
 	cands := []string{
 		filepath.Join(filepath.Dir(exe), "..", "harness", "data", "repo_fens.txt"),
+		filepath.Join(os.Getenv("VERIF_ROOT"), "harness", "data", "repo_fens.txt"),
 		"/verif/harness/data/repo_fens.txt",
 	}
 	for _, c := range cands {
